@@ -14,7 +14,7 @@ from . import parsers
 KEY = "s0"
 
 
-def make_info(grid, cs, pb, mb, sb, enc="raw", sizes=None, dtype="uint8", channels=1):
+def make_info(grid, cs, pb, mb, sb, enc="raw", sizes=None, dtype="uint8", channels=1, ienc=None):
     if sizes is None:
         sizes = [g * cs for g in grid]
     return {
@@ -26,7 +26,7 @@ def make_info(grid, cs, pb, mb, sb, enc="raw", sizes=None, dtype="uint8", channe
             "sharding": {"@type": "neuroglancer_uint64_sharded_v1",
                          "minishard_bits": mb, "shard_bits": sb,
                          "preshift_bits": pb, "hash": "identity",
-                         "minishard_index_encoding": enc, "data_encoding": enc},
+                         "minishard_index_encoding": ienc or enc, "data_encoding": enc},
         }],
     }
 
@@ -67,14 +67,15 @@ def _run_session(workdir, cfg, order, strategy="in memory", salt=0, fetch_all=Tr
     if sizes is None:
         # last chunk of each axis is partial when the grid has > 1 chunk there
         sizes = [g * cs - (1 if g > 1 else 0) for g in grid]
-    info = make_info(grid, cs, cfg["pb"], cfg["mb"], cfg["sb"], enc, sizes)
+    ienc = cfg.get("ienc") or enc
+    info = make_info(grid, cs, cfg["pb"], cfg["mb"], cfg["sb"], enc, sizes, ienc=ienc)
     d = tempfile.mkdtemp(prefix="ds_", dir=workdir)
     with open(os.path.join(d, "info"), "w") as f:
         json.dump(info, f)
     old_tmp = tempfile.tempdir
     tempfile.tempdir = workdir
     rec = {"cfg": {"grid": list(grid), "pb": cfg["pb"], "mb": cfg["mb"], "sb": cfg["sb"]},
-           "enc": enc, "strategy": strategy, "stores": [], "storeerr": [], "ids": [],
+           "enc": enc, "ienc": ienc, "strategy": strategy, "stores": [], "storeerr": [], "ids": [],
            "files": [], "fetch": [], "framing": [], "closeerr": None}
     try:
         acc = sfa.ShardedFileAccessor(d, strategy=strategy)
@@ -103,7 +104,7 @@ def _run_session(workdir, cfg, order, strategy="in memory", salt=0, fetch_all=Tr
                 raw = f.read()
             hashes.append(n + ":" + hashlib.sha1(raw).hexdigest())
             if parse and n.endswith(".shard"):
-                form, fr = parsers.parse_shard(raw, n[:-len(".shard")], cfg["mb"], enc, enc)
+                form, fr = parsers.parse_shard(raw, n[:-len(".shard")], cfg["mb"], ienc, enc)
                 rec["files"].append(form)
                 framing.update(fr)
         rec["hash"] = "|".join(hashes)
